@@ -4,14 +4,16 @@ GOENVV = GOFLAGS=-mod=mod GOPROXY=off GOSUMDB=off GOTOOLCHAIN=local
 
 setup: tools coq
 
+REPO ?= $(if $(VERIF_REPO),$(VERIF_REPO),/repo)
 tools:
 	mkdir -p .work
-	cp /repo/go.sum harness/go.sum
+	cp $(REPO)/go.sum harness/go.sum
+	sed -i 's|^replace github.com/Comcast/sheens => .*|replace github.com/Comcast/sheens => $(REPO)|' harness/go.mod
 	cd harness && $(GOENVV) go build -o ../.work/genconsts ./cmd/genconsts
 	cd harness && $(GOENVV) go build -o ../.work/vharness .
 
 coq: tools
-	.work/genconsts coq/Gen/Consts.v /repo
+	.work/genconsts coq/Gen/Consts.v $(REPO)
 	cd coq && coq_makefile -f _CoqProject -o Makefile
 	cd coq && timeout 3000 $(MAKE) -j16
 	python3 checklib/forbidden.py coq
